@@ -152,6 +152,11 @@ fn fusion(t: &mut Tape, ctx: &mut Ctx, al: gen::Alpha) -> CheckResult {
     let tw = wf(ctx, "spider-wf", sv::from_strict(&sv::SOH::twist(sv::ty(&x), sv::ty(&y))), "twist")?;
     require_iso(ctx, "identity-twist-are-spiders", &tw, &Diagram::twist(&x, &y), "twist(a,b) vs the spider with transposed legs")?;
     ensure!(ctx, tw.edges.is_empty(), "identity-twist-are-spiders", "twist has hyperedges");
+    let ltw = <LOH as SymmetricMonoidal>::twist(obs(&x), obs(&y));
+    let ltw = wf(ctx, "spider-wf", sv::from_strict(&ltw.to_strict()), "lax twist")?;
+    require_iso(ctx, "identity-twist-are-spiders", &ltw, &Diagram::twist(&x, &y), "lax twist(a,b) vs the spider with transposed legs")?;
+    let lid = wf(ctx, "spider-wf", sv::from_strict(&LOH::identity(obs(&w)).to_strict()), "lax identity")?;
+    require_iso(ctx, "identity-twist-are-spiders", &lid, &id, "lax identity(w) vs spider(id,id,w)")?;
     // half spider
     ctx.sub("half-spider");
     let hs = <sv::SOH as Spider<sv::K>>::half_spider(sv::ff(a.s.clone(), n), sv::ty(&a.nodes))
